@@ -364,7 +364,10 @@ class Ctx:
         g = zand(self.guard, *[a for s in self.scopes for a in s.assumes], cond)
         if g is False:
             return
-        self.errors.append((zbool(g), kind, self.where))
+        g = z3.simplify(zbool(g))
+        if z3.is_false(g):
+            return
+        self.errors.append((g, kind, self.where))
 
     def delta(self):
         self.nd += 1
@@ -878,7 +881,7 @@ _SRC_CACHE = {}
 def func_ast(fn):
     key = fn.__code__
     if key not in _SRC_CACHE:
-        src = textwrap.dedent(inspect.getsource(fn))
+        src = textwrap.dedent(inspect.getsource(fn.__code__))
         tree = ast.parse(src)
         node = tree.body[0]
         if not isinstance(node, (ast.FunctionDef,)):
@@ -1439,7 +1442,10 @@ def call_vectorized(vf, args, kwargs):
     arrs = [a for a in list(args) + list(kwargs.values()) if hasattr(a, "_symarray")]
     if not arrs:
         if not _any_symbolic(args, kwargs):
-            return vf(*args, **kwargs)
+            out = vf(*args, **kwargs)
+            if isinstance(out, numpy.ndarray) and out.ndim == 0:
+                out = out[()]      # 0-d array of a parameter-only rule (broadcast by numpy later)
+            return out
         return call_value(vf.pyfunc, args, kwargs)
     from gsv import colsym
     return colsym.vectorize_apply(vf, args, kwargs)
